@@ -5,6 +5,9 @@ ASSUMPTIONS = [
     "E1 lemma on the writer: ComposeEdif._output_name_of_cable_wire_ (file object stubbed as a write recorder) emits the plain name "
     "only for a one-wire non-array cable and otherwise exactly rename <id>_<i>_ \"<name>[<i>]\" with i = position + base index "
     "(width 1..2, base index 0..7, symbolic array flag); with the naming kernels this keeps width, array-ness and base index",
+    "E1 lemma on the writer: ComposeEdif._output_port_ref_ / _output_inner_pin_ write `member <port> x` exactly for array ports, with "
+    "x the position of the pin in its port (what the reader's parse_member indexes with), for ports of 1 and 3 pins whose pins are "
+    "joined to either of two wires or to nothing in every combination (symbolic links under the IR invariant)",
     "kernel-level claim: the whole-file statement is decided through the mechanisms its anchors name, each on the real code; "
     "the recursive-descent/printing glue that merely orders constructs is outside the claim",
     "E2 (CrossHair/z3): what ComposeEdif._output_name_of_cable_wire_ writes for bit i (name[i] and id_i_) is split back by "
@@ -25,4 +28,7 @@ def jobs(tier, prop="C03"):
         for w in (1, 2):
             out.append(dict(name="C03/cable_wire_name{width=%d}" % w, engine="E1/symheap", module="vf.e1.edif_jobs",
                             func="cable_wire_name_job", timeout=900, args=dict(width=w, tier=tier)))
+        for w in (1, 3):
+            out.append(dict(name="C03/port_ref{width=%d}" % w, engine="E1/symheap", module="vf.e1.edif_jobs",
+                            func="port_ref_job", timeout=900, args=dict(width=w, tier=tier)))
     return out
